@@ -654,4 +654,808 @@ theorem coerceLitFields_good (P : Parse) (defs : List VarDef) (unwrap : Bool) (v
       (hu.1 p (List.mem_filter.mpr ⟨hpf.1, hname⟩)) hpc
 end
 
+
+/-! ## `collect`: the coerced map of CoerceVariableValues / CoerceArgumentValues -/
+
+theorem noDupNames_cons {n : String} {ns : List String} (h : noDupNames (n :: ns) = true) :
+    n ∉ ns ∧ noDupNames ns = true := by
+  simp only [noDupNames, Bool.and_eq_true] at h
+  exact ⟨by simpa using h.1, h.2⟩
+
+theorem collect_keys {δ : Type} {name : δ → String} {f : δ → Option (Option GoVal)} :
+    ∀ {defs : List δ} {out : List (String × GoVal)}, collect name f defs = some out →
+      ∀ p ∈ out, p.1 ∈ defs.map name
+  | [], out, h, p, hp => by simp [collect] at h; subst h; simp at hp
+  | d :: ds, out, h, p, hp => by
+    simp only [collect] at h
+    split at h
+    · simp at h
+    · simp only [List.map_cons, List.mem_cons]; exact Or.inr (collect_keys h p hp)
+    · rename_i v hv
+      cases ht : collect name f ds with
+      | none => simp [ht] at h
+      | some tl =>
+        simp [ht] at h; subst h
+        simp only [List.map_cons, List.mem_cons] at hp ⊢
+        rcases hp with rfl | hp
+        · exact Or.inl rfl
+        · exact Or.inr (collect_keys ht p hp)
+
+theorem lookup_none_of_not_key {n : String} : ∀ {m : List (String × GoVal)}, (∀ p ∈ m, p.1 ≠ n) → m.lookup n = none
+  | [], _ => rfl
+  | (k, v) :: m, h => by
+    rw [lookup_cons]
+    have : (n == k) = false := by
+      have hk : k ≠ n := h (k, v) (List.mem_cons_self ..)
+      cases hb : n == k
+      · rfl
+      · exact absurd (by simpa using hb : n = k).symm hk
+    simp only [this]
+    exact lookup_none_of_not_key (fun p hp => h p (List.mem_cons_of_mem _ hp))
+
+/-- What the coerced map holds for a definition: exactly the per-definition result. -/
+theorem collect_lookup_mem {δ : Type} {name : δ → String} {f : δ → Option (Option GoVal)} :
+    ∀ {defs : List δ} {out : List (String × GoVal)}, noDupNames (defs.map name) = true →
+      collect name f defs = some out → ∀ d ∈ defs, f d = some (out.lookup (name d))
+  | [], out, _, h, d, hd => by simp at hd
+  | d0 :: ds, out, hnd, h, d, hd => by
+    obtain ⟨hfresh, hnd'⟩ := noDupNames_cons (by simpa using hnd)
+    simp only [collect] at h
+    have skip : ∀ d ∈ ds, name d ≠ name d0 := by
+      intro d hd heq; exact hfresh (heq ▸ List.mem_map_of_mem hd)
+    split at h
+    · simp at h
+    · rename_i hf0
+      rcases List.mem_cons.mp hd with rfl | hd
+      · rw [hf0, lookup_none_of_not_key]
+        intro p hp heq
+        exact hfresh (heq ▸ collect_keys h p hp)
+      · exact collect_lookup_mem hnd' h d hd
+    · rename_i v hf0
+      cases ht : collect name f ds with
+      | none => simp [ht] at h
+      | some tl =>
+        simp [ht] at h; subst h
+        rcases List.mem_cons.mp hd with rfl | hd
+        · simp [hf0]
+        · have hne : (name d == name d0) = false := by simpa using skip d hd
+          rw [lookup_cons]; simp only [hne]
+          exact collect_lookup_mem hnd' ht d hd
+
+/-- An entry of the coerced map comes from the (first) definition with that name. -/
+theorem collect_lookup_find {δ : Type} {name : δ → String} {f : δ → Option (Option GoVal)} :
+    ∀ {defs : List δ} {out : List (String × GoVal)} {n : String} {v : GoVal}, noDupNames (defs.map name) = true →
+      collect name f defs = some out → out.lookup n = some v →
+      ∃ d, defs.find? (fun d => name d == n) = some d ∧ f d = some (some v)
+  | [], out, n, v, _, h, hl => by simp [collect] at h; subst h; simp at hl
+  | d0 :: ds, out, n, v, hnd, h, hl => by
+    obtain ⟨hfresh, hnd'⟩ := noDupNames_cons (by simpa using hnd)
+    have viaTail : ∀ tl, collect name f ds = some tl → tl.lookup n = some v →
+        ∃ d, (d0 :: ds).find? (fun d => name d == n) = some d ∧ f d = some (some v) := by
+      intro tl ht hl'
+      obtain ⟨d, hfind, hfd⟩ := collect_lookup_find hnd' ht hl'
+      have hdn : name d = n := by simpa using List.find?_some hfind
+      have hmem := List.mem_of_find?_eq_some hfind
+      have hne : (name d0 == n) = false := by
+        cases hb : name d0 == n
+        · rfl
+        · exfalso; apply hfresh
+          have : name d0 = n := by simpa using hb
+          rw [this, ← hdn]; exact List.mem_map_of_mem hmem
+      exact ⟨d, by simp [hne, hfind], hfd⟩
+    simp only [collect] at h
+    split at h
+    · simp at h
+    · exact viaTail out h hl
+    · rename_i v0 hf0
+      cases ht : collect name f ds with
+      | none => simp [ht] at h
+      | some tl =>
+        simp [ht] at h; subst h
+        rw [lookup_cons] at hl
+        split at hl
+        · rename_i heq
+          simp at hl; subst hl
+          have : name d0 = n := ((by simpa using heq : n = name d0)).symm
+          exact ⟨d0, by simp [this], hf0⟩
+        · exact viaTail tl ht hl
+
+
+/-! ## The specification's coercion conforms as well -/
+
+theorem spec_scalar_shape (P : Parse) (k : Scalar) (v : CV) (x : GoVal)
+    (h : Spec.scalar P k v = some x) : scalarShape k x = true ∧ x.isNil = false := by
+  cases k <;> cases v <;> simp [Spec.scalar] at h
+  all_goals first
+    | (obtain ⟨h1, rfl⟩ := h; simp_all [scalarShape, GoVal.isNil])
+    | (subst h; simp [scalarShape, GoVal.isNil])
+    | (obtain ⟨c, _, rfl⟩ := h; simp [scalarShape, GoVal.isNil])
+
+theorem spec_coerce_not_nil (P : Parse) :
+    ∀ (T : Ty) (v : CV) (x : GoVal), v.isNull = false → Spec.coerce P T v = some x → x.isNil = false
+  | .scalar k, v, x, hv, h => by
+    cases v <;> simp [Spec.coerce, CV.isNull] at h hv <;> exact (spec_scalar_shape P k _ x h).2
+  | .enum n vals, v, x, hv, h => by
+    cases v <;> simp [Spec.coerce, CV.isNull] at h hv
+    obtain ⟨_, rfl⟩ := h; rfl
+  | .inputObj n fs, v, x, hv, h => by
+    cases v <;> simp [Spec.coerce, CV.isNull] at h hv
+    obtain ⟨_, out, _, rfl⟩ := h; rfl
+  | .list t, v, x, hv, h => by
+    cases v <;> simp [Spec.coerce, CV.isNull] at h hv
+    all_goals first
+      | (obtain ⟨y, _, rfl⟩ := h; rfl)
+      | (obtain ⟨_, y, _, rfl⟩ := h; rfl)
+  | .nonNull t, v, x, hv, h => by
+    simp only [Spec.coerce, hv] at h
+    exact spec_coerce_not_nil P t v x hv (by simpa using h)
+
+mutual
+theorem spec_coerce_conforms (P : Parse) :
+    ∀ (T : Ty) (v : CV) (x : GoVal), T.wf = true → Spec.coerce P T v = some x → conforms T x = true
+  | .scalar k, v, x, _, h => by
+    cases v <;> simp [Spec.coerce] at h
+    all_goals first
+      | (subst h; simp [conforms])
+      | exact conforms_of_shape (spec_scalar_shape P k _ x h).1
+  | .enum n vals, v, x, _, h => by
+    cases v <;> simp [Spec.coerce] at h
+    · subst h; simp [conforms]
+    · obtain ⟨hm, rfl⟩ := h; simp [conforms, hm]
+  | .inputObj n fs, v, x, hwf, h => by
+    cases v <;> simp [Spec.coerce] at h
+    · subst h; simp [conforms]
+    · rename_i m
+      obtain ⟨_, out, hout, rfl⟩ := h
+      have := spec_coerceFields_good P fs m out (by simpa [Ty.wf] using hwf) hout
+      simp only [conforms, Bool.and_eq_true]
+      exact ⟨by simpa [keysIn] using this.2, this.1⟩
+  | .list t, v, x, hwf, h => by
+    have hwt : t.wf = true := by simpa [Ty.wf] using hwf
+    have wrap : ∀ (v : CV), (Spec.coerce P t v).map (fun y => GoVal.list [y]) = some x → conforms (.list t) x = true := by
+      intro v hj
+      cases hc : Spec.coerce P t v with
+      | none => simp [hc] at hj
+      | some y =>
+        simp [hc] at hj; subst hj
+        simp [conforms, spec_coerce_conforms P t v y hwt hc]
+    cases v with
+    | null => simp [Spec.coerce] at h; subst h; simp [conforms]
+    | list xs =>
+      simp only [Spec.coerce] at h
+      obtain ⟨ys, hm, rfl⟩ := Option.map_eq_some_iff.mp h
+      simp only [conforms, List.all_eq_true]
+      intro y hy
+      obtain ⟨x0, _, hx0⟩ := mapAll_some hm y hy
+      split at hx0
+      · simp at hx0
+      · exact spec_coerce_conforms P t x0 y hwt hx0
+    | int z => simp only [Spec.coerce] at h; exact wrap _ h
+    | half z => simp only [Spec.coerce] at h; exact wrap _ h
+    | str z => simp only [Spec.coerce] at h; exact wrap _ h
+    | bool z => simp only [Spec.coerce] at h; exact wrap _ h
+    | enum z => simp only [Spec.coerce] at h; exact wrap _ h
+    | obj z => simp only [Spec.coerce] at h; exact wrap _ h
+  | .nonNull t, v, x, hwf, h => by
+    have hwt : t.wf = true := by simpa [Ty.wf] using hwf
+    simp only [Spec.coerce] at h
+    split at h
+    · simp at h
+    · rename_i hv
+      simp [conforms_nonNull, spec_coerce_not_nil P t v x (by simpa using hv) h, spec_coerce_conforms P t v x hwt h]
+theorem spec_coerceFields_good (P : Parse) :
+    ∀ (fs : Fields) (m : List (String × CV)) (out : List (String × GoVal)), fs.wf = true →
+      Spec.coerceFields P fs m = some out → conformsFields fs out = true ∧ keysIn fs out = true
+  | .nil, m, out, _, h => by
+    simp [Spec.coerceFields] at h; subst h; simp [conformsFields, keysIn]
+  | .cons name ty d rest, m, out, hwf, h => by
+    obtain ⟨hfresh, hty, hd, hrest⟩ := Fields.wf_cons hwf
+    simp only [Spec.coerceFields] at h
+    refine addField_good hfresh hd ?_ (fun t ht => spec_coerceFields_good P rest m t hrest ht) h
+    intro c hc
+    cases hl : m.lookup name with
+    | none => simp [hl] at hc
+    | some fv =>
+      simp [hl] at hc
+      exact spec_coerce_conforms P ty fv c hty hc
+end
+
+
+/-! ## The literal route equals the specification -/
+
+theorem mapAll_congr {α β : Type} {f g : α → Option β} :
+    ∀ {xs : List α}, (∀ x ∈ xs, f x = g x) → mapAll f xs = mapAll g xs
+  | [], _ => rfl
+  | x :: xs, h => by
+    simp only [mapAll]
+    rw [h x (List.mem_cons_self ..), mapAll_congr (fun y hy => h y (List.mem_cons_of_mem _ hy))]
+
+theorem mapAll_map {α β γ : Type} {f : β → Option γ} {g : α → β} :
+    ∀ {xs : List α}, mapAll f (xs.map g) = mapAll (fun x => f (g x)) xs
+  | [] => rfl
+  | x :: xs => by simp only [List.map_cons, mapAll]; rw [mapAll_map]
+
+theorem toLitL_eq_map : ∀ (xs : List CV), CV.toLitL xs = xs.map CV.toLit
+  | [] => rfl
+  | x :: xs => by simp [CV.toLitL, toLitL_eq_map xs]
+
+theorem toLitF_eq_map : ∀ (fs : List (String × CV)), CV.toLitF fs = fs.map (fun p => (p.1, p.2.toLit))
+  | [] => rfl
+  | p :: ps => by simp [CV.toLitF, toLitF_eq_map ps]
+
+theorem wfL_forall : ∀ {xs : List CV}, CV.wfL xs = true → ∀ x ∈ xs, x.wf = true
+  | [], _, x, hx => by simp at hx
+  | y :: ys, h, x, hx => by
+    simp only [CV.wfL, Bool.and_eq_true] at h
+    rcases List.mem_cons.mp hx with rfl | hx
+    · exact h.1
+    · exact wfL_forall h.2 x hx
+
+theorem wfF_lookup : ∀ {m : List (String × CV)} {name : String} {v : CV}, CV.wfF m = true →
+    m.lookup name = some v → v.wf = true
+  | [], _, _, _, h => by simp at h
+  | (k, w) :: rest, name, v, hw, h => by
+    simp only [CV.wfF, Bool.and_eq_true] at hw
+    simp only [List.lookup] at h
+    split at h
+    · cases h; exact hw.1
+    · exact wfF_lookup hw.2 h
+
+theorem toLit_not_var (v : CV) (vars : Vars) : isUnsetVar vars v.toLit = false := by
+  cases v <;> simp [CV.toLit, isUnsetVar]
+
+theorem lookup_none_of_not_any {α : Type} {k : String} : ∀ {m : List (String × α)},
+    m.any (fun q => q.1 == k) = false → m.lookup k = none
+  | [], _ => rfl
+  | (k', v) :: rest, h => by
+    simp only [List.any_cons, Bool.or_eq_false_iff] at h
+    simp only [List.lookup]
+    have : (k == k') = false := by
+      cases hb : k == k'
+      · rfl
+      · have : k = k' := by simpa using hb
+        subst this; simp at h
+    simp only [this]
+    exact lookup_none_of_not_any h.2
+
+/-- With distinct keys the literal entries written for a field are the one the map holds. -/
+theorem filter_toLitF (name : String) (vars : Vars) : ∀ {m : List (String × CV)}, noDupKeys m = true →
+    (CV.toLitF m).filter (fun p => p.1 == name && !isUnsetVar vars p.2)
+      = match m.lookup name with
+        | some v => [(name, v.toLit)]
+        | none => []
+  | [], _ => rfl
+  | (k, v) :: rest, h => by
+    simp only [noDupKeys, Bool.and_eq_true] at h
+    obtain ⟨hfresh, hrest⟩ := h
+    have hfresh' : rest.any (fun q => q.1 == k) = false := by simpa using hfresh
+    simp only [CV.toLitF, List.filter_cons, toLit_not_var, List.lookup]
+    cases hk : k == name
+    · have : (name == k) = false := by
+        cases hb : name == k
+        · rfl
+        · have e : name = k := by simpa using hb
+          subst e; simp at hk
+      simp only [this, Bool.false_and]
+      exact filter_toLitF name vars hrest
+    · have e : k = name := by simpa using hk
+      subst e
+      simp only [beq_self_eq_true, Bool.not_false, Bool.and_self, if_true]
+      rw [filter_toLitF k vars hrest, lookup_none_of_not_any hfresh']
+
+theorem all_hasName_toLitF (fs : Fields) : ∀ (m : List (String × CV)),
+    (CV.toLitF m).all (fun p => fs.hasName p.1) = m.all (fun p => fs.hasName p.1)
+  | [] => rfl
+  | p :: ps => by simp [CV.toLitF, all_hasName_toLitF fs ps]
+
+theorem scalar_coerceLit_eq_spec (P : Parse) (k : Scalar) (v : CV) :
+    k.coerceLit P v.toLit = Spec.scalar P k v := by
+  cases k <;> cases v <;> simp [Scalar.coerceLit, Spec.scalar, CV.toLit]
+
+theorem spec_coerce_nonNull_not_nil (P : Parse) {T : Ty} {v : CV} {c : GoVal} (hnn : isNonNull T = true)
+    (h : Spec.coerce P T v = some c) : c.isNil = false := by
+  cases T <;> simp [isNonNull] at hnn
+  rename_i t
+  simp only [Spec.coerce] at h
+  split at h
+  · simp at h
+  · rename_i hv
+    exact spec_coerce_not_nil P t v c (by simpa using hv) h
+
+theorem litProvided_single {ty : Ty} {c : GoVal} (h : isNonNull ty = true → c.isNil = false) :
+    litProvided ty (some [c]) = some (some c) := by
+  simp only [litProvided, List.getLast?_singleton]
+  split
+  · rename_i hcn
+    simp only [Bool.and_eq_true] at hcn
+    simp [h hcn.2] at hcn
+  · rfl
+
+mutual
+/-- **The literal route is the specification**, item-to-list flag included: with the flag the
+    code computes `Spec.coerce`, without it (items of a list value) `Spec.coerceItem`. -/
+theorem coerceLit_eq_spec (P : Parse) :
+    ∀ (T : Ty) (v : CV) (allow : Bool), v.wf = true →
+      coerceLit P [] T v.toLit allow = if allow then Spec.coerce P T v else Spec.coerceItem P T v
+  | .scalar k, v, allow, _ => by
+    cases v <;> cases allow <;>
+      simp [coerceLit, CV.toLit, Spec.coerce, Spec.coerceItem, isListish, isNonNull, coerceVarRef,
+        ← scalar_coerceLit_eq_spec]
+  | .enum n vals, v, allow, _ => by
+    cases v <;> cases allow <;>
+      simp [coerceLit, CV.toLit, Spec.coerce, Spec.coerceItem, isListish, isNonNull]
+  | .inputObj n fs, v, allow, hw => by
+    cases v with
+    | obj m =>
+      simp only [CV.wf, Bool.and_eq_true] at hw
+      have := coerceLitFields_eq_spec P fs m hw.1 hw.2
+      cases allow <;>
+        (simp only [coerceLit, CV.toLit, Spec.coerce, Spec.coerceItem, isListish, this]
+         rw [all_hasName_toLitF]; simp)
+    | null => cases allow <;> simp [coerceLit, CV.toLit, Spec.coerce, Spec.coerceItem, isListish, isNonNull]
+    | int z => cases allow <;> simp [coerceLit, CV.toLit, Spec.coerce, Spec.coerceItem, isListish, isNonNull]
+    | half z => cases allow <;> simp [coerceLit, CV.toLit, Spec.coerce, Spec.coerceItem, isListish, isNonNull]
+    | str z => cases allow <;> simp [coerceLit, CV.toLit, Spec.coerce, Spec.coerceItem, isListish, isNonNull]
+    | bool z => cases allow <;> simp [coerceLit, CV.toLit, Spec.coerce, Spec.coerceItem, isListish, isNonNull]
+    | enum z => cases allow <;> simp [coerceLit, CV.toLit, Spec.coerce, Spec.coerceItem, isListish, isNonNull]
+    | list z => cases allow <;> simp [coerceLit, CV.toLit, Spec.coerce, Spec.coerceItem, isListish, isNonNull]
+  | .list t, v, allow, hw => by
+    have leaf : ∀ (w : CV), w.wf = true → w.isList = false → w.isNull = false → w.toLit.plain = true →
+        (∀ xs, w.toLit ≠ .list xs) →
+        coerceLit P [] (.list t) w.toLit allow
+          = if allow then Spec.coerce P (.list t) w else Spec.coerceItem P (.list t) w := by
+      intro w hww hl hn hp hnl
+      have ih := coerceLit_eq_spec P t w true hww
+      simp only [if_true] at ih
+      cases w <;> simp [CV.isList, CV.isNull] at hl hn <;> cases allow <;>
+        simp_all [coerceLit, CV.toLit, Spec.coerce, Spec.coerceItem, isListish, CV.isList, CV.isNull]
+    cases v with
+    | null => cases allow <;> simp [coerceLit, CV.toLit, Spec.coerce, Spec.coerceItem, isListish, isNonNull, CV.isNull, CV.isList]
+    | list xs =>
+      have hxs := wfL_forall (by simpa [CV.wf] using hw)
+      have items : mapAll (fun x => coerceLit P [] t x false) (CV.toLitL xs)
+          = mapAll (fun x => if (isListish t && !(x.isList || x.isNull)) = true then none else Spec.coerce P t x) xs := by
+        rw [toLitL_eq_map, mapAll_map]
+        apply mapAll_congr
+        intro x hx
+        have := coerceLit_eq_spec P t x false (hxs x hx)
+        simpa [Spec.coerceItem] using this
+      cases allow <;>
+        simp [coerceLit, CV.toLit, Spec.coerce, Spec.coerceItem, isListish, CV.isList, CV.isNull, items]
+    | int z => exact leaf _ hw rfl rfl rfl (by intro xs h; cases h)
+    | half z => exact leaf _ hw rfl rfl rfl (by intro xs h; cases h)
+    | str z => exact leaf _ hw rfl rfl rfl (by intro xs h; cases h)
+    | bool z => exact leaf _ hw rfl rfl rfl (by intro xs h; cases h)
+    | enum z => exact leaf _ hw rfl rfl rfl (by intro xs h; cases h)
+    | obj z => exact leaf _ hw rfl rfl rfl (by intro xs h; cases h)
+  | .nonNull t, v, allow, hw => by
+    have ih := coerceLit_eq_spec P t v allow hw
+    cases v <;> cases allow <;>
+      simp_all [coerceLit, CV.toLit, Spec.coerce, Spec.coerceItem, isListish, isNonNull, CV.isNull, CV.isList]
+theorem coerceLitFields_eq_spec (P : Parse) :
+    ∀ (fs : Fields) (m : List (String × CV)), noDupKeys m = true → CV.wfF m = true →
+      coerceLitFields P [] fs (CV.toLitF m) = Spec.coerceFields P fs m
+  | .nil, m, _, _ => by simp [coerceLitFields, Spec.coerceFields]
+  | .cons name ty d rest, m, hnd, hw => by
+    simp only [coerceLitFields, Spec.coerceFields]
+    rw [coerceLitFields_eq_spec P rest m hnd hw, filter_toLitF name [] hnd]
+    cases hl : m.lookup name with
+    | none => simp [mapAll, litProvided]
+    | some v =>
+      have ih := coerceLit_eq_spec P ty v true (wfF_lookup hw hl)
+      simp only [if_true] at ih
+      simp only [mapAll, ih, Option.map_some]
+      cases hc : Spec.coerce P ty v with
+      | none => simp [litProvided]
+      | some c => simp only [litProvided_single (fun hnn => spec_coerce_nonNull_not_nil P hnn hc)]
+end
+
+
+/-! ## The variable route equals the specification on JSON-faithful values -/
+
+theorem toJsonL_eq_map : ∀ (xs : List CV), CV.toJsonL xs = xs.map CV.toJson
+  | [] => rfl
+  | x :: xs => by simp [CV.toJsonL, toJsonL_eq_map xs]
+
+theorem lookup_toJsonF (name : String) : ∀ (m : List (String × CV)),
+    (CV.toJsonF m).lookup name = (m.lookup name).map CV.toJson
+  | [] => rfl
+  | (k, v) :: rest => by
+    simp only [CV.toJsonF, List.lookup]
+    split <;> simp [lookup_toJsonF name rest]
+
+theorem all_hasName_toJsonF (fs : Fields) : ∀ (m : List (String × CV)),
+    (CV.toJsonF m).all (fun p => fs.hasName p.1) = m.all (fun p => fs.hasName p.1)
+  | [] => rfl
+  | p :: ps => by simp [CV.toJsonF, all_hasName_toJsonF fs ps]
+
+theorem scalar_coerceVar_eq_spec (P : Parse) (k : Scalar) (v : CV)
+    (hf : jsonFaithful (.scalar k) v = true) : k.coerceVar P v.toJson = Spec.scalar P k v := by
+  cases k <;> cases v <;>
+    simp_all [Scalar.coerceVar, Spec.scalar, CV.toJson, jsonFaithful, Scalar.integral, Scalar.acceptsString,
+      Int.mul_emod_right, Int.mul_ediv_cancel_left]
+
+mutual
+/-- **The variable route is the specification** on every client value JSON represents faithfully
+    for the type it is sent to. -/
+theorem coerceVar_eq_spec (P : Parse) :
+    ∀ (T : Ty) (v : CV) (allow : Bool), v.wf = true → jsonFaithful T v = true →
+      coerceVar P T v.toJson allow = if allow then Spec.coerce P T v else Spec.coerceItem P T v
+  | .scalar k, v, allow, _, hf => by
+    have := scalar_coerceVar_eq_spec P k v hf
+    cases v <;> cases allow <;>
+      simp_all [coerceVar, CV.toJson, Spec.coerce, Spec.coerceItem, isListish, isNonNull]
+  | .enum n vals, v, allow, _, hf => by
+    cases v <;> cases allow <;>
+      simp_all [coerceVar, CV.toJson, Spec.coerce, Spec.coerceItem, isListish, isNonNull, jsonFaithful]
+  | .inputObj n fs, v, allow, hw, hf => by
+    cases v with
+    | obj m =>
+      simp only [CV.wf, Bool.and_eq_true] at hw
+      have := coerceVarFields_eq_spec P fs m hw.2 (by simpa [jsonFaithful] using hf)
+      cases allow <;>
+        (simp only [coerceVar, CV.toJson, Spec.coerce, Spec.coerceItem, isListish, this]
+         rw [all_hasName_toJsonF]; simp)
+    | null => cases allow <;> simp [coerceVar, CV.toJson, Spec.coerce, Spec.coerceItem, isListish, isNonNull]
+    | int z => cases allow <;> simp [coerceVar, CV.toJson, Spec.coerce, Spec.coerceItem, isListish]
+    | half z => cases allow <;> simp [coerceVar, CV.toJson, Spec.coerce, Spec.coerceItem, isListish]
+    | str z => cases allow <;> simp [coerceVar, CV.toJson, Spec.coerce, Spec.coerceItem, isListish]
+    | bool z => cases allow <;> simp [coerceVar, CV.toJson, Spec.coerce, Spec.coerceItem, isListish]
+    | enum z => cases allow <;> simp [coerceVar, CV.toJson, Spec.coerce, Spec.coerceItem, isListish]
+    | list z => cases allow <;> simp [coerceVar, CV.toJson, Spec.coerce, Spec.coerceItem, isListish]
+  | .list t, v, allow, hw, hf => by
+    have leaf : ∀ (w : CV), w.wf = true → jsonFaithful t w = true → w.isList = false → w.isNull = false →
+        coerceVar P (.list t) w.toJson allow
+          = if allow then Spec.coerce P (.list t) w else Spec.coerceItem P (.list t) w := by
+      intro w hww hfw hl hn
+      have ih := coerceVar_eq_spec P t w true hww hfw
+      simp only [if_true] at ih
+      cases w <;> simp [CV.isList, CV.isNull] at hl hn <;> cases allow <;>
+        simp_all [coerceVar, CV.toJson, Spec.coerce, Spec.coerceItem, isListish, CV.isList, CV.isNull]
+    cases v with
+    | null => cases allow <;> simp [coerceVar, CV.toJson, Spec.coerce, Spec.coerceItem, isListish, isNonNull, CV.isNull, CV.isList]
+    | list xs =>
+      have hxs := wfL_forall (by simpa [CV.wf] using hw)
+      have hfs : ∀ x ∈ xs, jsonFaithful t x = true := by simpa [jsonFaithful] using hf
+      have items : mapAll (fun x => coerceVar P t x false) (CV.toJsonL xs)
+          = mapAll (fun x => if (isListish t && !(x.isList || x.isNull)) = true then none else Spec.coerce P t x) xs := by
+        rw [toJsonL_eq_map, mapAll_map]
+        apply mapAll_congr
+        intro x hx
+        have := coerceVar_eq_spec P t x false (hxs x hx) (hfs x hx)
+        simpa [Spec.coerceItem] using this
+      cases allow <;>
+        simp [coerceVar, CV.toJson, Spec.coerce, Spec.coerceItem, isListish, CV.isList, CV.isNull, items]
+    | int z => exact leaf _ hw (by simpa [jsonFaithful] using hf) rfl rfl
+    | half z => exact leaf _ hw (by simpa [jsonFaithful] using hf) rfl rfl
+    | str z => exact leaf _ hw (by simpa [jsonFaithful] using hf) rfl rfl
+    | bool z => exact leaf _ hw (by simpa [jsonFaithful] using hf) rfl rfl
+    | enum z => exact leaf _ hw (by simpa [jsonFaithful] using hf) rfl rfl
+    | obj z => exact leaf _ hw (by simpa [jsonFaithful] using hf) rfl rfl
+  | .nonNull t, v, allow, hw, hf => by
+    cases v with
+    | null => cases allow <;> simp [coerceVar, CV.toJson, Spec.coerce, Spec.coerceItem, isListish, isNonNull, CV.isNull, CV.isList]
+    | int z =>
+      have ih := coerceVar_eq_spec P t _ allow hw (by simpa [jsonFaithful] using hf)
+      cases allow <;> simp_all [coerceVar, CV.toJson, Spec.coerce, Spec.coerceItem, isListish, CV.isNull, CV.isList]
+    | half z =>
+      have ih := coerceVar_eq_spec P t _ allow hw (by simpa [jsonFaithful] using hf)
+      cases allow <;> simp_all [coerceVar, CV.toJson, Spec.coerce, Spec.coerceItem, isListish, CV.isNull, CV.isList]
+    | str z =>
+      have ih := coerceVar_eq_spec P t _ allow hw (by simpa [jsonFaithful] using hf)
+      cases allow <;> simp_all [coerceVar, CV.toJson, Spec.coerce, Spec.coerceItem, isListish, CV.isNull, CV.isList]
+    | bool z =>
+      have ih := coerceVar_eq_spec P t _ allow hw (by simpa [jsonFaithful] using hf)
+      cases allow <;> simp_all [coerceVar, CV.toJson, Spec.coerce, Spec.coerceItem, isListish, CV.isNull, CV.isList]
+    | enum z =>
+      have ih := coerceVar_eq_spec P t _ allow hw (by simpa [jsonFaithful] using hf)
+      cases allow <;> simp_all [coerceVar, CV.toJson, Spec.coerce, Spec.coerceItem, isListish, CV.isNull, CV.isList]
+    | list z =>
+      have ih := coerceVar_eq_spec P t _ allow hw (by simpa [jsonFaithful] using hf)
+      cases allow <;> simp_all [coerceVar, CV.toJson, Spec.coerce, Spec.coerceItem, isListish, CV.isNull, CV.isList]
+    | obj z =>
+      have ih := coerceVar_eq_spec P t _ allow hw (by simpa [jsonFaithful] using hf)
+      cases allow <;> simp_all [coerceVar, CV.toJson, Spec.coerce, Spec.coerceItem, isListish, CV.isNull, CV.isList]
+theorem coerceVarFields_eq_spec (P : Parse) :
+    ∀ (fs : Fields) (m : List (String × CV)), CV.wfF m = true → jsonFaithfulFields fs m = true →
+      coerceVarFields P fs (CV.toJsonF m) = Spec.coerceFields P fs m
+  | .nil, m, _, _ => by simp [coerceVarFields, Spec.coerceFields]
+  | .cons name ty d rest, m, hw, hf => by
+    simp only [jsonFaithfulFields, Bool.and_eq_true] at hf
+    simp only [coerceVarFields, Spec.coerceFields]
+    rw [coerceVarFields_eq_spec P rest m hw hf.2, lookup_toJsonF]
+    cases hl : m.lookup name with
+    | none => simp
+    | some v =>
+      have ih := coerceVar_eq_spec P ty v true (wfF_lookup hw hl) (by simpa [hl] using hf.1)
+      simp only [if_true] at ih
+      simp [ih]
+end
+
+theorem lookupLast_mem {α : Type} {k : String} : ∀ {l : List (String × α)} {v : α},
+    lookupLast k l = some v → (k, v) ∈ l
+  | [], v, h => by simp [lookupLast] at h
+  | (k', v') :: rest, v, h => by
+    simp only [lookupLast] at h
+    cases hr : lookupLast k rest with
+    | some w =>
+      simp only [hr] at h
+      cases h
+      exact List.mem_cons_of_mem _ (lookupLast_mem hr)
+    | none =>
+      simp only [hr] at h
+      split at h
+      · rename_i heq
+        cases h
+        have : k' = k := by simpa using heq
+        subst this
+        exact List.mem_cons_self ..
+      · simp at h
+
+theorem find_self {defs : List ArgDef} (hnd : noDupNames (defs.map (·.name)) = true) {d : ArgDef}
+    (hd : d ∈ defs) : ArgDef.find defs d.name = some d := by
+  induction defs with
+  | nil => simp at hd
+  | cons d0 ds ih =>
+    obtain ⟨hfresh, hnd'⟩ := noDupNames_cons (by simpa using hnd)
+    rcases List.mem_cons.mp hd with rfl | hd
+    · simp [ArgDef.find]
+    · have hne : (d0.name == d.name) = false := by
+        cases hb : d0.name == d.name
+        · rfl
+        · exfalso; apply hfresh
+          have : d0.name = d.name := by simpa using hb
+          rw [this]; exact List.mem_map_of_mem hd
+      have := ih hnd' hd
+      simp only [ArgDef.find] at this ⊢
+      simp [hne, this]
+
+
+
+/-! ## Variables nested in a literal -/
+
+mutual
+theorem inline_closed (σ : Supplied) : ∀ (l : Lit), containsVar l = false → inline σ l = l
+  | .var n, h => by simp [containsVar] at h
+  | .list xs, h => by simp only [inline]; rw [inlineL_closed σ xs (by simpa [containsVar] using h)]
+  | .obj fs, h => by simp only [inline]; rw [inlineF_closed σ fs (by simpa [containsVar] using h)]
+  | .int z, _ => rfl
+  | .float z, _ => rfl
+  | .str z, _ => rfl
+  | .bool z, _ => rfl
+  | .null, _ => rfl
+  | .enum z, _ => rfl
+theorem inlineL_closed (σ : Supplied) : ∀ (xs : List Lit), containsVarL xs = false → inlineL σ xs = xs
+  | [], _ => rfl
+  | x :: xs, h => by
+    simp only [containsVarL, Bool.or_eq_false_iff] at h
+    simp only [inlineL]; rw [inline_closed σ x h.1, inlineL_closed σ xs h.2]
+theorem inlineF_closed (σ : Supplied) : ∀ (fs : List (String × Lit)), containsVarF fs = false → inlineF σ fs = fs
+  | [], _ => rfl
+  | (k, l) :: ps, h => by
+    simp only [containsVarF, Bool.or_eq_false_iff] at h
+    have := inline_closed σ l h.1
+    cases l <;> simp_all [inlineF, containsVar, inlineF_closed σ ps h.2]
+end
+
+theorem containsVarF_of_forall : ∀ {fs : List (String × Lit)}, (∀ p ∈ fs, containsVar p.2 = false) → containsVarF fs = false
+  | [], _ => rfl
+  | q :: qs, h => by
+    simp only [containsVarF, Bool.or_eq_false_iff]
+    exact ⟨h q (List.mem_cons_self ..), containsVarF_of_forall (fun p hp => h p (List.mem_cons_of_mem _ hp))⟩
+
+theorem isUnsetVar_closed {vars : Vars} {l : Lit} (h : containsVar l = false) : isUnsetVar vars l = false := by
+  cases l <;> simp_all [isUnsetVar, containsVar]
+
+mutual
+/-- The variable values do not matter for a literal without variables. -/
+theorem coerceLit_closed (P : Parse) (vars : Vars) :
+    ∀ (T : Ty) (l : Lit) (a : Bool), containsVar l = false → coerceLit P vars T l a = coerceLit P [] T l a
+  | .scalar k, l, a, h => by cases l <;> simp_all [coerceLit, containsVar]
+  | .enum n vs, l, a, h => by cases l <;> simp_all [coerceLit, containsVar]
+  | .inputObj n fs, l, a, h => by
+    cases l with
+    | obj lfs =>
+      have := coerceLitFields_closed P vars fs lfs (containsVarF_false (by simpa [containsVar] using h))
+      simp [coerceLit, this]
+    | var n => simp [containsVar] at h
+    | null => simp [coerceLit]
+    | int z => simp [coerceLit]
+    | float z => simp [coerceLit]
+    | str z => simp [coerceLit]
+    | bool z => simp [coerceLit]
+    | enum z => simp [coerceLit]
+    | list z => simp [coerceLit]
+  | .list t, l, a, h => by
+    cases l with
+    | var n => simp [containsVar] at h
+    | null => simp [coerceLit]
+    | list xs =>
+      have hx := containsVarL_false (by simpa [containsVar] using h)
+      simp only [coerceLit]
+      rw [mapAll_congr (fun x hxm => coerceLit_closed P vars t x false (hx x hxm))]
+    | int z => simp only [coerceLit]; rw [coerceLit_closed P vars t _ true h]
+    | float z => simp only [coerceLit]; rw [coerceLit_closed P vars t _ true h]
+    | str z => simp only [coerceLit]; rw [coerceLit_closed P vars t _ true h]
+    | bool z => simp only [coerceLit]; rw [coerceLit_closed P vars t _ true h]
+    | enum z => simp only [coerceLit]; rw [coerceLit_closed P vars t _ true h]
+    | obj z => simp only [coerceLit]; rw [coerceLit_closed P vars t _ true h]
+  | .nonNull t, l, a, h => by
+    cases l with
+    | var n => simp [containsVar] at h
+    | null => simp [coerceLit]
+    | list xs => simp only [coerceLit]; exact coerceLit_closed P vars t _ a h
+    | int z => simp only [coerceLit]; exact coerceLit_closed P vars t _ a h
+    | float z => simp only [coerceLit]; exact coerceLit_closed P vars t _ a h
+    | str z => simp only [coerceLit]; exact coerceLit_closed P vars t _ a h
+    | bool z => simp only [coerceLit]; exact coerceLit_closed P vars t _ a h
+    | enum z => simp only [coerceLit]; exact coerceLit_closed P vars t _ a h
+    | obj z => simp only [coerceLit]; exact coerceLit_closed P vars t _ a h
+theorem coerceLitFields_closed (P : Parse) (vars : Vars) :
+    ∀ (fs : Fields) (lfs : List (String × Lit)), (∀ p ∈ lfs, containsVar p.2 = false) →
+      coerceLitFields P vars fs lfs = coerceLitFields P [] fs lfs
+  | .nil, _, _ => by simp [coerceLitFields]
+  | .cons name ty d rest, lfs, h => by
+    simp only [coerceLitFields]
+    rw [coerceLitFields_closed P vars rest lfs h]
+    have hf : lfs.filter (fun p => p.1 == name && !isUnsetVar vars p.2)
+        = lfs.filter (fun p => p.1 == name && !isUnsetVar [] p.2) := by
+      apply List.filter_congr
+      intro p hp
+      rw [isUnsetVar_closed (h p hp), isUnsetVar_closed (h p hp)]
+    rw [hf]
+    rw [mapAll_congr (fun p hp => coerceLit_closed P vars ty p.2 true (h p (List.mem_filter.mp hp).1))]
+end
+
+theorem coerceVar_nonNull_not_nil (P : Parse) {L : Ty} {j : Json} {a : Bool} {x : GoVal}
+    (hnn : isNonNull L = true) (h : coerceVar P L j a = some x) : x.isNil = false := by
+  cases L <;> simp [isNonNull] at hnn
+  rename_i t
+  cases j with
+  | null => simp [coerceVar, isNonNull] at h
+  | num z => exact coerceVar_not_nil P _ _ a x rfl h
+  | str z => exact coerceVar_not_nil P _ _ a x rfl h
+  | bool z => exact coerceVar_not_nil P _ _ a x rfl h
+  | list z => exact coerceVar_not_nil P _ _ a x rfl h
+  | obj z => exact coerceVar_not_nil P _ _ a x rfl h
+
+/-- A variable that stands for a supplied value coerces exactly like that value written in place. -/
+theorem var_stands (P : Parse) (σ : Supplied) (vars : Vars) (L : Ty) (item : Bool) (n : String)
+    (h : VarStandsFor P σ vars L item n) :
+    coerceLit P vars L (.var n) (!item) = coerceLit P [] L (inline σ (.var n)) (!item) := by
+  simp only [VarStandsFor] at h
+  simp only [coerceLit, inline, coerceVarRef]
+  cases hs : σ.lookup n with
+  | none =>
+    simp only [hs] at h
+    simp [h, coerceLit]
+  | some v =>
+    simp only [hs] at h
+    obtain ⟨hw, hf, ⟨x, hx, hc⟩, hitem⟩ := h
+    simp only [hx]
+    have hspec := (coerceVar_eq_spec P L v true hw hf).symm
+    simp only [if_true, hc] at hspec
+    have hnil : (x.isNil && isNonNull L) = false := by
+      cases hnn : isNonNull L
+      · simp
+      · simp [coerceVar_nonNull_not_nil P hnn hc]
+    simp only [hnil]
+    rw [coerceLit_eq_spec P L v (!item) hw]
+    cases item with
+    | false => simp [hspec]
+    | true =>
+      simp only [Bool.not_true, Spec.coerceItem]
+      cases hl : isListish L
+      · simp [hspec]
+      · have := hitem rfl hl
+        simp [this, hspec]
+
+
+theorem inlineL_eq_map (σ : Supplied) : ∀ (xs : List Lit), inlineL σ xs = xs.map (inline σ)
+  | [] => rfl
+  | x :: xs => by simp [inlineL, inlineL_eq_map σ xs]
+
+theorem closed_case (P : Parse) (σ : Supplied) (vars : Vars) (T : Ty) (l : Lit) (a : Bool)
+    (h : containsVar l = false) : coerceLit P vars T l a = coerceLit P [] T (inline σ l) a := by
+  rw [inline_closed σ l h, coerceLit_closed P vars T l a h]
+
+theorem nested_var {P : Parse} {σ : Supplied} {vars : Vars} {T : Ty} {item : Bool} {n : String}
+    (h : Nested P σ vars T item (.var n)) : VarStandsFor P σ vars T item n := by
+  cases T <;> simpa [Nested] using h
+
+theorem inline_not_unset (σ : Supplied) (l : Lit) : isUnsetVar [] (inline σ l) = false := by
+  cases l <;> simp [inline, isUnsetVar]
+  rename_i n
+  cases σ.lookup n <;> simp [isUnsetVar, toLit_not_var]
+
+/-- The entries a literal writes for one declared field, with variables and with the values the
+    variables stand for written in place, coerce alike. -/
+theorem nested_field_entries (P : Parse) (σ : Supplied) (vars : Vars) (name : String) (ty : Ty)
+    (ih : ∀ l, Nested P σ vars ty false l → coerceLit P vars ty l true = coerceLit P [] ty (inline σ l) true) :
+    ∀ (lfs : List (String × Lit)), (∀ p ∈ lfs, p.1 = name → Nested P σ vars ty false p.2) →
+      mapAll (fun (p : String × Lit) => coerceLit P vars ty p.2 true)
+          (lfs.filter (fun p => p.1 == name && !isUnsetVar vars p.2))
+        = mapAll (fun (p : String × Lit) => coerceLit P [] ty p.2 true)
+          ((inlineF σ lfs).filter (fun p => p.1 == name && !isUnsetVar [] p.2))
+  | [], _ => rfl
+  | (k, l) :: ps, h => by
+    have hrest := nested_field_entries P σ vars name ty ih ps (fun p hp => h p (List.mem_cons_of_mem _ hp))
+    cases hk : k == name with
+    | false =>
+      -- another field's entry: skipped on both sides
+      have lhs : ((k, l) :: ps).filter (fun p => p.1 == name && !isUnsetVar vars p.2)
+          = ps.filter (fun p => p.1 == name && !isUnsetVar vars p.2) := by
+        simp [List.filter_cons, hk]
+      rw [lhs, hrest]
+      cases l with
+      | var n =>
+        simp only [inlineF]
+        cases σ.lookup n <;> simp [List.filter_cons, hk]
+      | null => simp [inlineF, List.filter_cons, hk]
+      | int z => simp [inlineF, List.filter_cons, hk]
+      | float z => simp [inlineF, List.filter_cons, hk]
+      | str z => simp [inlineF, List.filter_cons, hk]
+      | bool z => simp [inlineF, List.filter_cons, hk]
+      | enum z => simp [inlineF, List.filter_cons, hk]
+      | list z => simp [inlineF, List.filter_cons, hk]
+      | obj z => simp [inlineF, List.filter_cons, hk]
+    | true =>
+      have hkn : k = name := by simpa using hk
+      have hn := h (k, l) (List.mem_cons_self ..) hkn
+      have plain : ∀ (l' : Lit), l' = l → isUnsetVar vars l = false → inlineF σ ((k, l) :: ps) = (k, inline σ l) :: inlineF σ ps →
+          mapAll (fun (p : String × Lit) => coerceLit P vars ty p.2 true)
+              (((k, l) :: ps).filter (fun p => p.1 == name && !isUnsetVar vars p.2))
+            = mapAll (fun (p : String × Lit) => coerceLit P [] ty p.2 true)
+              ((inlineF σ ((k, l) :: ps)).filter (fun p => p.1 == name && !isUnsetVar [] p.2)) := by
+        intro _ _ hu hi
+        rw [hi]
+        simp only [List.filter_cons, hk, hu, inline_not_unset, Bool.not_false, Bool.and_self, if_true, mapAll]
+        rw [ih l hn, hrest]
+      cases l with
+      | var n =>
+        have hv := nested_var hn
+        have hvs := var_stands P σ vars ty false n hv
+        simp only [Bool.not_false] at hvs
+        simp only [VarStandsFor] at hv
+        cases hs : σ.lookup n with
+        | none =>
+          simp only [hs] at hv
+          simp [inlineF, hs, List.filter_cons, hk, isUnsetVar, hv, hrest]
+        | some v =>
+          simp only [hs] at hv
+          obtain ⟨_, _, ⟨x, hx, _⟩, _⟩ := hv
+          simp only [inline, hs] at hvs
+          simp only [inlineF, hs, List.filter_cons, hk, isUnsetVar, hx, toLit_not_var, Option.isNone_some,
+            Bool.not_false, Bool.and_self, if_true, mapAll]
+          rw [hvs, hrest]
+      | null => exact plain _ rfl rfl rfl
+      | int z => exact plain _ rfl rfl rfl
+      | float z => exact plain _ rfl rfl rfl
+      | str z => exact plain _ rfl rfl rfl
+      | bool z => exact plain _ rfl rfl rfl
+      | enum z => exact plain _ rfl rfl rfl
+      | list z => exact plain _ rfl rfl rfl
+      | obj z => exact plain _ rfl rfl rfl
+
+theorem all_hasName_inlineF (σ : Supplied) (fs : Fields) : ∀ (lfs : List (String × Lit)),
+    (∀ p ∈ lfs, fs.hasName p.1 = true ∨ containsVar p.2 = false) →
+      (inlineF σ lfs).all (fun p => fs.hasName p.1) = lfs.all (fun p => fs.hasName p.1)
+  | [], _ => rfl
+  | (k, l) :: ps, h => by
+    have hrest := all_hasName_inlineF σ fs ps (fun p hp => h p (List.mem_cons_of_mem _ hp))
+    cases l with
+    | var n =>
+      have := h (k, .var n) (List.mem_cons_self ..)
+      simp only [containsVar, Bool.true_eq_false, or_false] at this
+      simp only [inlineF]
+      cases σ.lookup n <;> simp [this, hrest]
+    | null => simp [inlineF, hrest]
+    | int z => simp [inlineF, hrest]
+    | float z => simp [inlineF, hrest]
+    | str z => simp [inlineF, hrest]
+    | bool z => simp [inlineF, hrest]
+    | enum z => simp [inlineF, hrest]
+    | list z => simp [inlineF, hrest]
+    | obj z => simp [inlineF, hrest]
+
 end ApiFu.C05
